@@ -865,6 +865,27 @@ pub fn stalled_probe_script(r: &mut Rng, _index: u64, _tier: Tier) -> (CaseCfg, 
 /// and the transport answers the write that would complete the packet with Ok(0) or an error.
 pub fn c11_script(r: &mut Rng, _index: u64, _tier: Tier) -> (CaseCfg, Vec<Step>) {
     let cfg = CaseCfg { rx: 128, tx: 512, keepalive: 0, ..CaseCfg::default() };
+    // one case in four: the broker limits the packet size, a disconnect_with() whose DISCONNECT is
+    // above the limit is refused locally (the connection stays up), a request or two later the
+    // application calls disconnect(): that one fits, goes out, and the handle is dead for good
+    if r.chance(1, 4) {
+        let limit = *r.pick(&[64u32, 100, 200]);
+        let mut s = vec![connect_with(SpMode::Force(false), AckMode::Immediate, vec![Prop::MaximumPacketSize(limit)])];
+        s.push(Step::Disconnect(DiscSpec { reason: *r.pick(&[None, Some(4u8)]), props: Some(vec![Prop::ReasonString("x".repeat(limit as usize + r.below(40)))]), cancel_at: None }));
+        for _ in 0..r.below(3) {
+            s.push(match r.below(3) {
+                0 => pubq(1, "between", 5, 2),
+                1 => poll0(),
+                _ => pubq(0, "between", 6, 2),
+            });
+        }
+        s.push(Step::Disconnect(DiscSpec { reason: *r.pick(&[None, Some(0u8), Some(4)]), props: None, cancel_at: None }));
+        s.push(poll0());
+        s.push(pubq(1, "after", 3, 2));
+        s.push(Step::Disconnect(DiscSpec { reason: None, props: None, cancel_at: None }));
+        s.push(Step::Drive { cancel_at: None });
+        return (cfg, s);
+    }
     let policy = IoPolicy { write: *r.pick(&[Chunk::One, Chunk::Fixed(3)]), pend_write: Pend::Always, ..IoPolicy::default() };
     let mut s = vec![Step::Connect(ConnectSpec { policy, faults: vec![], connack: ConnackSpec::ok(SpMode::Force(false)), broker: BrokerPolicy { acks: AckMode::Hold, ping: AckMode::Immediate, fail_pct: 0, longform_pct: 0 }, cancel_at: None })];
     // cancelled at its 2nd..5th await: one to three pieces of the packet are on the wire
@@ -1078,6 +1099,54 @@ pub fn disconnect_given_up_script(r: &mut Rng, _index: u64, _tier: Tier) -> (Cas
 /// withheld) when the transmit arena fills up to the last bytes with another unacknowledged
 /// packet; the connection is lost and the session resumed: the PUBREL (and the acknowledgements
 /// the client owes) need no arena room and go out again.
+/// QoS 2 exchanges wait for PUBCOMP and a larger request is unacknowledged as well; the session
+/// is resumed on a connection whose Maximum Packet Size lies below that request (it is refused,
+/// PacketTooLarge, whenever its turn comes, and the handle stays up): the PUBRELs, which fit, are
+/// owed and go out all the same, and so does the PUBREL for a PUBREC that arrives there.
+pub fn replay_blocked_by_a_smaller_limit_script(r: &mut Rng, _index: u64, _tier: Tier) -> (CaseCfg, Vec<Step>) {
+    let cfg = CaseCfg { rx: 128, tx: 1024, keepalive: 0, ..CaseCfg::default() };
+    let mut s = vec![connect_with(SpMode::Force(false), AckMode::Hold, vec![])];
+    let n2 = r.range(1, 3);
+    // the big one first (it precedes the PUBRELs' publishes in the retained table) or last
+    let big = match r.below(3) {
+        0 => pubq(1, "big/one", 0xB1, r.range(40, 90)),
+        1 => pubq(2, "big/two", 0xB2, r.range(40, 90)),
+        _ => Step::Subscribe(SubSpec { filters: vec![FilterSpec { filter: "b".repeat(r.range(40, 90)), max_qos: 1, no_local: false, rap: false, rh: 0 }], props: vec![], cancel_at: None }),
+    };
+    let big_first = r.chance(1, 2);
+    if big_first {
+        s.push(big.clone());
+    }
+    for k in 0..n2 {
+        s.push(pubq(2, "r", k as u32, 2));
+    }
+    if !big_first {
+        s.push(big.clone());
+    }
+    // PUBRECs for the small ones only (the big one, if QoS 2, gets its PUBREC on the next
+    // connection or never): held packets are released oldest first
+    s.push(poll0());
+    for k in 0..n2 {
+        let pid = if big_first { 2 + k as u16 } else { 1 + k as u16 };
+        s.push(Step::Broker(BrokerAct::Send(crate::refcodec::SPacket::PubRec { pid, reason: None, props: None })));
+        s.push(poll0());
+        s.push(poll0());
+    }
+    s.push(match r.below(3) {
+        0 => Step::DropConn,
+        1 => Step::Broker(BrokerAct::Close),
+        _ => Step::ForgetConn,
+    });
+    s.push(poll0());
+    s.push(Step::DropConn);
+    let limit = *r.pick(&[4u32, 8, 20, 30]);
+    s.push(connect_with(SpMode::Force(true), AckMode::Immediate, vec![Prop::MaximumPacketSize(limit)]));
+    for _ in 0..n2 + 4 {
+        s.push(poll0());
+    }
+    (cfg, s)
+}
+
 pub fn release_on_a_full_arena_script(r: &mut Rng, _index: u64, _tier: Tier) -> (CaseCfg, Vec<Step>) {
     use crate::refcodec::SPacket;
     let tx = *r.pick(&[64usize, 96, 128, 256]);
